@@ -165,4 +165,20 @@ ufunc instKind(o int) string
 iface (o Object) Kind() (k string)
   pure
   ensures k == instKind(ifaceVal(o))
+
+// parsing a spec from its YAML text (schema validation, kind registry): external; what the text says about the
+// object's name and kind is what the spec reports (yamlName / yamlKind are declared in pkg/api's contracts)
+func (s *Supervisor) NewSpec(yamlConfig string) (spec *Spec, err error)
+  trusted
+  flag allocates
+  ensures err != nil ==> spec == nil
+  ensures err == nil ==> spec != nil && fresh(spec) && spec.meta != nil && spec.meta.Name == yamlName(yamlConfig) && spec.meta.Kind == yamlKind(yamlConfig)
+func (s *Spec) YAMLConfig() (y string)
+  pure
+  requires s != nil
+  ensures y == s.yamlConfig
+func (s *Spec) Kind() (k string)
+  pure
+  requires s != nil && s.meta != nil
+  ensures k == s.meta.Kind
 @*/
